@@ -132,7 +132,58 @@ def _structure(stmts: list, emit: Callable[[Optional[ast.expr], ast.AST], list])
                 out.append(new)
                 return out
             raise _NoStructure()
-        raise _NoStructure()  # a return inside a loop / try / with / match
+        if isinstance(s, (ast.For, ast.While)) and not s.orelse and _loop_returns_ok(s):
+            # search loop: `for ..: if c: return v`  ->  flag = False; for ..: if c: <emit v>; flag = True; break
+            #              <rest>                         if not flag: <rest>
+            _structure.counter = getattr(_structure, "counter", 0) + 1  # type: ignore[attr-defined]
+            flag = f"_inl_left{_structure.counter}"  # type: ignore[attr-defined]
+
+            def in_loop(v, at, _emit=emit, _flag=flag):
+                res = _emit(v, at)
+                if res and isinstance(res[-1], ast.Return):
+                    return res  # caller wants a plain return: leaving the loop that way is fine
+                return res + [ast.copy_location(ast.Assign(targets=[ast.Name(id=_flag, ctx=ast.Store())], value=ast.Constant(value=True), lineno=at.lineno), at),
+                              ast.copy_location(ast.Break(), at)]
+
+            new_loop = copy.copy(s)
+            new_loop.body = _replace_returns(s.body, in_loop)
+            rest = _structure(stmts[i + 1:], emit)
+            out.append(ast.copy_location(ast.Assign(targets=[ast.Name(id=flag, ctx=ast.Store())], value=ast.Constant(value=False), lineno=s.lineno), s))
+            out.append(new_loop)
+            if rest:
+                guard = ast.copy_location(ast.If(test=ast.UnaryOp(op=ast.Not(), operand=ast.Name(id=flag, ctx=ast.Load())), body=rest, orelse=[]), s)
+                out.append(guard)
+            return out
+        raise _NoStructure()  # a return inside a nested loop / try / with / match
+    return out
+
+
+def _loop_returns_ok(loop) -> bool:
+    """Returns sit in the loop body under plain ifs only (no nested loop, try, with, match)."""
+    def ok(stmts) -> bool:
+        for s in stmts:
+            if isinstance(s, ast.If):
+                if not ok(s.body) or not ok(s.orelse):
+                    return False
+            elif _contains_return([s]) and not isinstance(s, ast.Return):
+                return False
+        return True
+    return ok(loop.body)
+
+
+def _replace_returns(stmts, emit) -> list:
+    out: list = []
+    for s in stmts:
+        if isinstance(s, ast.Return):
+            out.extend(emit(s.value, s))
+            return out
+        if isinstance(s, ast.If) and _contains_return([s]):
+            n = copy.copy(s)
+            n.body = _replace_returns(s.body, emit) or [ast.copy_location(ast.Pass(), s)]
+            n.orelse = _replace_returns(s.orelse, emit)
+            out.append(n)
+        else:
+            out.append(s)
     return out
 
 
@@ -144,16 +195,29 @@ class Inliner:
         self.inlined: list[str] = []
 
     def resolve(self, f: FuncInfo, call: ast.Call) -> Optional[FuncInfo]:
-        if f.cls is None or not f.params or f.is_staticmethod:
-            return None
         fn = call.func
-        if not (isinstance(fn, ast.Attribute) and isinstance(fn.value, ast.Name) and fn.value.id == f.params[0]):
+        h: Optional[FuncInfo] = None
+        if isinstance(fn, ast.Attribute) and isinstance(fn.value, ast.Name):
+            recv = fn.value.id
+            if f.cls is not None and f.params and not f.is_staticmethod and recv == f.params[0]:
+                targets = self.model.dispatch(f.cls, fn.attr)
+                if len(targets) == 1:
+                    h = next(iter(targets))
+                    if h.is_classmethod and not f.is_classmethod:
+                        h = None
+            else:
+                k = self.model.resolve_name(f.module, recv)
+                if hasattr(k, "methods"):
+                    h = self.model.lookup(k, fn.attr)  # Class.static_helper(...)
+                    if h is not None and not h.is_staticmethod:
+                        h = None
+        elif isinstance(fn, ast.Name):
+            k = self.model.resolve_name(f.module, fn.id)
+            if isinstance(k, FuncInfo) and k.cls is None:
+                h = k
+        if h is None or h is f:
             return None
-        targets = self.model.dispatch(f.cls, fn.attr)
-        if len(targets) != 1:
-            return None
-        h = next(iter(targets))
-        if h is f or h.is_staticmethod or h.is_classmethod or h.decorators:
+        if any(d not in ("staticmethod",) for d in h.decorators):
             return None
         if not self.want(h):
             return None
@@ -164,11 +228,21 @@ class Inliner:
             return None
         if _unsupported(h.node):
             return None
+        if h.cls is None and h.module is not f.module:
+            # a module-level helper sees its own module's globals: only inline when it uses none that differ
+            for n in ast.walk(h.node):
+                if isinstance(n, ast.Name) and isinstance(n.ctx, ast.Load) and n.id not in _locals_of(h.node) \
+                        and n.id not in [x.arg for x in a.args + a.kwonlyargs]:
+                    if self.model.resolve_name(h.module, n.id) is not self.model.resolve_name(f.module, n.id):
+                        import builtins
+                        if not hasattr(builtins, n.id):
+                            return None
         return h
 
     def _bind(self, h: FuncInfo, call: ast.Call, selfname: str) -> Optional[tuple[dict, list]]:
         a = h.node.args
-        params = [x.arg for x in a.args][1:]
+        has_self = h.cls is not None and not h.is_staticmethod
+        params = [x.arg for x in a.args][1:] if has_self else [x.arg for x in a.args]
         kwonly = [x.arg for x in a.kwonlyargs]
         defaults = dict(zip(reversed(params), reversed(a.defaults)))
         for x, d in zip(a.kwonlyargs, a.kw_defaults):
@@ -185,7 +259,7 @@ class Inliner:
             given[k.arg] = k.value
         self.counter += 1
         pre = f"_inl{self.counter}_"
-        mapping: dict = {h.params[0]: selfname}
+        mapping: dict = {h.params[0]: selfname} if has_self else {}
         setup: list = []
         stored = _locals_of(h.node)
         for p in params + kwonly:
@@ -219,7 +293,7 @@ class Inliner:
         h = self.resolve(f, call)
         if h is None or depth >= MAX_DEPTH:
             return None
-        b = self._bind(h, call, f.params[0])
+        b = self._bind(h, call, f.params[0] if f.params else '')
         if b is None:
             return None
         mapping, setup = b
@@ -271,7 +345,7 @@ class Inliner:
                 e = outer._single_return_expr(h)
                 if e is None:
                     return n
-                b = outer._bind(h, n, f.params[0])
+                b = outer._bind(h, n, f.params[0] if f.params else '')
                 if b is None:
                     return n
                 mapping, setup = b
@@ -283,7 +357,80 @@ class Inliner:
 
         return T().visit(node)
 
+    def _hoist(self, f: FuncInfo, st: ast.stmt, depth: int) -> Optional[list]:
+        """`... helper(a) ...` in a simple statement / if-test / for-iterable  ->  `_t = helper(a)` first."""
+        if isinstance(st, (ast.Assign, ast.AugAssign, ast.AnnAssign, ast.Return, ast.Expr, ast.Raise)):
+            fields = ["value"] if not isinstance(st, ast.Raise) else ["exc"]
+        elif isinstance(st, ast.If):
+            fields = ["test"]
+        elif isinstance(st, (ast.For, ast.AsyncFor)):
+            fields = ["iter"]
+        else:
+            return None
+        outer = self
+        pre: list = []
+
+        class T(ast.NodeTransformer):
+            def visit_Lambda(self, n):
+                return n
+
+            def _comp(self, n):
+                return n
+
+            visit_ListComp = visit_SetComp = visit_GeneratorExp = visit_DictComp = _comp
+
+            def visit_IfExp(self, n):
+                n.test = self.visit(n.test)
+                return n  # the arms are evaluated conditionally: leave calls there alone
+
+            def visit_BoolOp(self, n):
+                n.values = [self.visit(n.values[0])] + n.values[1:]
+                return n
+
+            def visit_Call(self, n: ast.Call):
+                self.generic_visit(n)
+                h = outer.resolve(f, n)
+                if h is None or outer._single_return_expr(h) is not None:
+                    return n
+                outer.counter += 1
+                tmp = f"_inl{outer.counter}_result"
+                pre.append(ast.copy_location(ast.Assign(targets=[ast.Name(id=tmp, ctx=ast.Store())], value=n, lineno=n.lineno), n))
+                return ast.copy_location(ast.Name(id=tmp, ctx=ast.Load()), n)
+
+        new = copy.copy(st)
+        for fld in fields:
+            v = getattr(st, fld, None)
+            if v is None:
+                continue
+            if isinstance(v, ast.Call) and fld == "value" and not isinstance(st, ast.AugAssign) and outer.resolve(f, v) is not None:
+                # direct `x = helper()` / `return helper()` / `helper()` is expand_stmt's job; hoist only inside its arguments
+                v2 = copy.deepcopy(v)
+                v2.args = [T().visit(a) for a in v2.args]
+                for k in v2.keywords:
+                    k.value = T().visit(k.value)
+                setattr(new, fld, v2)
+            else:
+                setattr(new, fld, T().visit(copy.deepcopy(v)))
+        if not pre:
+            return None
+        for n in pre:
+            ast.fix_missing_locations(n)
+        ast.fix_missing_locations(new)
+        return pre + [new]
+
     def _rewrite_stmt(self, f: FuncInfo, st: ast.stmt, depth: int) -> list:
+        if depth < MAX_DEPTH:
+            h = self._hoist(f, st, depth)
+            if h is not None:
+                out: list = []
+                for s2 in h[:-1]:
+                    out.extend(self._rewrite_stmt(f, s2, depth))
+                # the rewritten statement itself contains no hoistable call any more
+                out.extend(self._rewrite_stmt_core(f, h[-1], depth))
+                return out
+        return self._rewrite_stmt_core(f, st, depth)
+
+    def _rewrite_stmt_core(self, f: FuncInfo, st: ast.stmt, depth: int) -> list:
         try:
             exp = self.expand_stmt(f, st, depth)
         except _NoStructure:
